@@ -6,7 +6,7 @@ CONSTANTS
   Seconds <- NoSecond
   TickMs <- Ticks1
   MaxTicks = 3
-  MaxPre = 7
+  MaxPre = 6
 INVARIANT NoMix
 INVARIANT Joined
 INVARIANT EndFrame
